@@ -38,6 +38,7 @@ macro_rules! install_getrandom {
     () => {
         /// Interposes libc's getrandom (std binds to it weakly): hash seeds become a function
         /// of the run's tape. Nothing else in these binaries needs real randomness.
+        #[cfg(not(miri))]
         #[unsafe(no_mangle)]
         pub unsafe extern "C" fn getrandom(
             buf: *mut ::libc::c_void,
